@@ -254,3 +254,6 @@ def run(ctx):
     for e in events:
         if e["ev"] == "sum" and not e["raised"] and len(e["obs"]) >= 6:
             ctx.sample({k: e[k] for k in ("cfg", "g", "obs", "cells")}, limit=2)
+    # growth next to C19: the mutable bounding box the raster is laid over (BoundingBox.tla)
+    from drivers import bbox_common
+    bbox_common.run(ctx, quick)
